@@ -59,6 +59,8 @@ pub enum Op {
     Append(usize, Val),
     Pop(usize),
     Remove(usize, K),
+    /// the table is replaced by its clone (Clone goes through from_iter)
+    CloneReplace(usize),
 }
 
 fn mk(k: K) -> MK {
@@ -213,6 +215,7 @@ impl HistSystem for Sys {
             ops.push(Op::Append(t, Val::N(5)));
             ops.push(Op::Append(t, Val::T(t)));
             ops.push(Op::Pop(t));
+            ops.push(Op::CloneReplace(t));
         }
         ops
     }
@@ -255,6 +258,10 @@ impl HistSystem for Sys {
                         }
                     }
                 }
+            }
+            Op::CloneReplace(t) => {
+                let c = std::panic::catch_unwind(std::panic::AssertUnwindSafe(|| inst.table(*t).clone())).map_err(|p| dv("clone/panic", cvx_core::engine::panic_message(&p)))?;
+                *inst.table(*t) = c;
             }
             Op::Remove(t, k) => {
                 let kv = inst.key(*k);
@@ -365,6 +372,7 @@ impl HistSystem for Sys {
             Op::Append(..) => "append",
             Op::Pop(_) => "pop",
             Op::Remove(..) => "remove",
+            Op::CloneReplace(_) => "clone",
         }
         .to_string()
     }
